@@ -115,7 +115,7 @@ fn check_cli(ctx: &mut Ctx, case: &ProjectCase, seed: u64) {
             return;
         }
     };
-    let res = crate::props::common::ProjectResult { root, outcome: crate::run::Outcome { verdict, trace: Default::default(), panics: vec![], wall: o.wall }, before, after, expect };
+    let res = crate::props::common::ProjectResult { root, outcome: crate::run::Outcome { verdict, trace: Default::default(), panics: vec![], wall: o.wall, late_tasks: 0 }, before, after, expect };
     for (sig, msg) in judge_project(case, &res) {
         ctx.violation(format!("C01:cli:{sig}"), format!("{msg}\n(through the binary: txtpp {}; seed {seed})", cfg.cli_args().join(" ")), case.to_json());
     }
